@@ -180,6 +180,23 @@ func execPath(f []string) string {
 	decl := func(t1 string) string {
 		return fmt.Sprintf("var a: %s = %s\nvar b: %s = %s\n", t1, la, tb, lb)
 	}
+	if strings.HasPrefix(op, "u") && len(op) == 2 {
+		// unary operator on the left operand (the right operand is ignored): NEGATE_INT/NEGATE_FLOAT vs NEGATE vs folding
+		u := op[1:]
+		uv := []struct{ name, src string }{
+			{"lit", fmt.Sprintf("%s(%s)", u, la)},
+			{"typed", fmt.Sprintf("var a: %s = %s\n%sa", ta, la, u)},
+			{"union", fmt.Sprintf("var a: %s = %s\n%sa", unionWith(ta), la, u)},
+		}
+		var sb strings.Builder
+		sb.WriteString("ok")
+		for _, v := range uv {
+			o := runVariant(v.src)
+			fmt.Fprintf(&sb, " %s=%s;%s", v.name, o.ops, o.res)
+		}
+		sb.WriteString(" call=-;rejected ucall=-;rejected")
+		return sb.String()
+	}
 	variants := []struct{ name, src string }{
 		{"lit", fmt.Sprintf("(%s) %s (%s)", la, op, lb)},
 		{"typed", decl(ta) + "a " + op + " b"},
@@ -214,7 +231,8 @@ func probeOpSelect(args []string) (any, error) {
 	var rows []row
 	all := append([]struct{ name, lit string }{}, selTypes...)
 	for _, t := range selTypes {
-		if !strings.Contains(t.name, "|") {
+		// union rows for the types whose typed/generic split matters (the others are generic already)
+		if t.name == "Int" || t.name == "Float" || t.name == "String" || t.name == "Char" {
 			all = append(all, struct{ name, lit string }{unionWith(t.name), t.lit})
 		}
 	}
